@@ -437,11 +437,11 @@ def sp_op(proj, ch, lab, _files):
     in_addrs = ["Source." + cattr, "Source.method." + marg, "source_fn." + farg, "source_fn." + kwarg, "module_attr"]
     out_addrs = [oconst, "Target." + oattr, "Target.method." + omarg, "Target.method." + okw, "target_fn." + oarg, "target_fn." + okw2,
                  "Later.method." + omarg, "helper." + oarg]
-    ev = ch.chance(lab + ".eval", 0.2)
+    ev = ch.chance(lab + ".eval", 0.3)
     npairs = ch.weighted(lab + ".npairs", [(1, 5), (2, 3), (3, 2)])
     pairs = []
     outs = ch.sample(lab + ".outs", out_addrs, npairs)
-    if ev and ch.chance(lab + ".useextra", 0.4):
+    if ev and ch.chance(lab + ".useextra", 0.5):
         evalname = "EXTRA"  # resolves only if this version of the input module defines it
     landed = set()
     steer = ch.chance(lab + ".steer", 0.9)  # keep away from the triggers of the open findings F11-F13 (DESIGN §7.2)
